@@ -295,7 +295,10 @@ impl Sim {
                     self.viol(&["C10"], format!("client{ci} wire: malformed entity records in mutate message"));
                 }
                 if d.entities.is_empty() && !track {
-                    self.viol(&["C11"], format!("client{ci} wire: empty mutate message for tick {}", d.tick));
+                    // O6: not a violation of any listed property while other traffic flows (observed when a
+                    // message is an exact multiple of the maximum size and only empty relation groups
+                    // follow); silence at rest is checked by `idle_check`.
+                    self.obs.inc("o6_empty_mutate_messages_during_activity");
                 }
                 for (ent, sz) in &d.entities {
                     if where_is.insert(*ent, mi).is_some() {
